@@ -3,5 +3,5 @@
 # write one md5 per (file, format) to $2.  usage: corpus_dump.sh <repo-tree> <outfile>
 TREE="$1"; OUT="$2"
 cd "$TREE" || exit 1
-find test pytest test_unit -name '*.py[co]' 2>/dev/null | sort | xargs -P 16 -I{} sh -c 'for f in classic extended; do h=$(PYTHONPATH='"$TREE"' /venv/bin/python -m xdis.bin.pydisasm -F $f "{}" 2>&1 | grep -v "^# Disassembled from\|^# pydisasm version\|DeprecationWarning\|click.__version__" | md5sum | cut -c1-12); echo "{} $f $h"; done' | sort > "$OUT"
+find test pytest test_unit -name '*.py[co]' 2>/dev/null | sort | xargs -P 16 -I{} sh -c 'for f in classic extended; do h=$(PYTHONPATH='"$TREE"' /venv/bin/python -m xdis.bin.pydisasm -F $f "{}" 2>&1 | sed -e "s/ at 0x[0-9a-f]*//g" | grep -v "^# Disassembled from\|^# pydisasm version\|DeprecationWarning\|click.__version__" | md5sum | cut -c1-12); echo "{} $f $h"; done' | sort > "$OUT"
 wc -l "$OUT"
